@@ -159,7 +159,7 @@ impl<T: Tab + 'static> State<T> {
     pub fn exec(&mut self, op: &Value) -> Value {
         let mut ev = op.as_object().expect("HARNESS: op not an object").clone();
         // strip results of a previous run (replay of a recorded trace)
-        for k in ["ty", "out", "post", "r", "walk", "le_in", "cls"] {
+        for k in ["ty", "out", "post", "r", "walk", "walk_ref", "le_in", "cls"] {
             ev.remove(k);
         }
         let name = arg_str(op, "op").to_string();
@@ -458,6 +458,10 @@ impl<T: Tab + 'static> State<T> {
                     self.slots[d] = Some(t);
                 }
                 ok(if has { vec![d] } else { vec![] }, Some(json!({"count": bits_of(count)})))
+            }
+            "iter_prog" => {
+                let r = T::iter_prog(arg_usize(op, "n"), &arg_list(op, "ks"), arg_str(op, "tail"));
+                ok(vec![], Some(r))
             }
             "vnext" => {
                 let a = arg_usize(op, "a");
